@@ -466,6 +466,9 @@ func execC03(b []byte) vx.Verdict {
 	if rdB.total > wantAB || rdA.total > wantBA {
 		return vx.CertainViolation("bytes-exact", "C03/bytes-repeated", "more bytes read than written: A->B %d/%d, B->A %d/%d", rdB.total, wantAB, rdA.total, wantBA)
 	}
+	// the known finding (an endpoint's own momentary send failure kills its QUIC connection) needs the cut link to be the one
+	// next to an endpoint; with an interior cut the endpoints' next hops stay up and nothing excuses an incomplete transfer
+	adjacentCut := s.Detour && s.CutAt > 0 && len(mainLinks) > 0 && (s.CutLink%len(mainLinks) == 0 || s.CutLink%len(mainLinks) == len(mainLinks)-1)
 	// ---- completeness and end-of-stream
 	complete := okA && okB && rdB.total == wantAB && rdA.total == wantBA
 	eofOK := s.Mode == "proxy" || (rdA.eof && rdB.eof)
@@ -490,6 +493,10 @@ func execC03(b []byte) vx.Verdict {
 				return vx.Violation("complete", "C03/local-send-error-aborts-stream", "a momentary send failure on the endpoint's own node (%q) aborted the stream although an alternative path exists / the link came back (%s, %d hops, detour %v, cut link %d at %d bytes): %s",
 					needle, s.Class, s.Hops, s.Detour, s.CutLink%maxInt(1, s.Hops), s.CutAt, detail)
 			}
+		}
+		if adjacentCut {
+			return vx.Violation("complete", "C03/local-send-error-aborts-stream", "the link next to a stream endpoint was cut while a detour exists (cut link %d of %d at %d bytes) and the stream did not survive; the endpoint's own send failure ends its QUIC connection, which the application does not always get to see as an error text (%s, detour %v): %s",
+				s.CutLink%maxInt(1, s.Hops), s.Hops, s.CutAt, s.Class, s.Detour, detail)
 		}
 		return vx.Violation("complete", "C03/incomplete", "transfer incomplete although the links lose at most 3%% (%s, %d hops, mode %s, shape %s): %s", s.Class, s.Hops, s.Mode, s.Shape, detail)
 	}
@@ -555,6 +562,9 @@ func execC03(b []byte) vx.Verdict {
 					return vx.Violation("complete", "C03/local-send-error-aborts-stream", "a momentary send failure on the endpoint's own node (%q) aborted the stream although an alternative path exists / the link came back (%s, %d hops, detour %v, cut link %d at %d bytes): %s",
 						needle, s.Class, s.Hops, s.Detour, s.CutLink%maxInt(1, s.Hops), s.CutAt, detail)
 				}
+			}
+			if adjacentCut {
+				return vx.Violation("complete", "C03/local-send-error-aborts-stream", "the link next to a stream endpoint was cut while a detour exists (cut link %d of %d at %d bytes) and the stream did not survive (%s): %s", s.CutLink%maxInt(1, s.Hops), s.Hops, s.CutAt, s.Class, detail)
 			}
 			return vx.Violation("complete", "C03/incomplete", "transfer incomplete although the links lose at most 3%% (%s, %d hops, mode %s, shape %s): %s", s.Class, s.Hops, s.Mode, s.Shape, detail)
 		}
